@@ -64,10 +64,12 @@ def has(a, kinds):
     return a[0] in kinds or any(isinstance(x, tuple) and has(x, kinds) for x in a[1:])
 
 
-def show(a, ty):
-    """concrete syntax; returns None when the syntax cannot express the AST"""
+def show(a, ty, nl_alt=False):
+    """concrete syntax; returns None when the syntax cannot express the AST.  nl_alt: write the alternations of a grep pattern as newlines"""
     ext = ty == "posix-extended"
     lp, rp, bar = ("(", ")", "|") if ext else ("\\(", "\\)", "\\|")
+    if nl_alt and ty == "grep":
+        bar = "\n"
     basic = ty in ("posix-basic", "ed", "sed")
 
     def atom(x):
@@ -162,7 +164,7 @@ def run(ctx):
                 alt2 = ("C", lead_ast, other) if lead_ast else other
                 ast = ("A", ast, alt2) if rng.random() < 0.5 else ("A", alt2, ast)
             ty = rng.choice(TYPES)
-            txt = show(ast, ty)
+            txt = show(ast, ty, nl_alt=rng.random() < 0.3)
             if txt is None:
                 continue
             ci = rng.random() < 0.25
@@ -234,7 +236,7 @@ def known(ctx, forest):
     cases = [("posix-extended", b".*/a", [b"nl/a"]), ("posix-extended", b"nl/a\n", [b"nl/a\n"]),
              ("posix-extended", b"nl/(a|a\n)", [b"nl/a", b"nl/a\n"]), ("posix-extended", b"nl/(a\n|a)", [b"nl/a", b"nl/a\n"]),
              ("posix-extended", b"nl/(a|a\n)b?", [b"nl/a", b"nl/a\n", b"nl/a\nb"]),
-             ("emacs", b"nl/\\(a\\|a\n\\)", [b"nl/a", b"nl/a\n"]), ("grep", b"nl/\\(a\\|a\n\\)", [b"nl/a", b"nl/a\n"]),
+             ("emacs", b"nl/\\(a\\|a\n\\)", [b"nl/a", b"nl/a\n"]), ("grep", b"nl/\\(a\\|a[\n]\\)", [b"nl/a", b"nl/a\n"]), ("grep", b"nl/\\(a\\|a\n\\)", [b"nl/a"]),
              ("emacs", b"nl/\\(\n\\|a\\|a\nb\\|a\n\\)", [b"nl/\n", b"nl/a", b"nl/a\n", b"nl/a\nb"]),
              ("posix-basic", b"nl/a\n\\{0,1\\}", [b"nl/a", b"nl/a\n"]), ("posix-extended", b"nl/a\n?", [b"nl/a", b"nl/a\n"])]
     # a ")" without a "(" before it is an ordinary character in posix-extended (also inside the group the pattern is wrapped in);
@@ -252,7 +254,7 @@ def known(ctx, forest):
     # letter is that letter; emacs has no interval operator
     d2 = os.path.join(forest.dir, b"gr")
     os.mkdir(d2)
-    for n in (b"aa", b"abb", b"aba", b"aa0", b"a)", b"x$", b"x+", b"x~", b"x.", b"x3", b"x\xd9\xa3", b"xt", b"x\t", b"x{2}", b"xx", b"a\nb-"):
+    for n in (b"aa", b"abb", b"aba", b"aa0", b"a)", b"x$", b"x+", b"x~", b"x.", b"x3", b"x\xd9\xa3", b"xt", b"x\t", b"x{2}", b"xx", b"a\nb-", b"x:]", b"x3]"):
         open(os.path.join(d2, n), "wb").close()
     cases2 = [("emacs", b"gr/\\(a\\)\\1", [b"gr/aa"]), ("posix-extended", b"gr/(a)(b)\\2", [b"gr/abb"]), ("posix-basic", b"gr/\\(a\\)\\(b\\)\\2", [b"gr/abb"]),
               ("grep", b"gr/\\(a\\)\\1", [b"gr/aa"]), ("posix-extended", b"gr/(a)\\10", [b"gr/aa0"]), ("posix-extended", b"gr/a)|gr/(a)b\\1", [b"gr/a)", b"gr/aba"]),
@@ -260,6 +262,12 @@ def known(ctx, forest):
               ("grep", b"gr/x[[:digit:]]", [b"gr/x3"]), ("posix-extended", b"gr/x[^[:digit:][:punct:]a-z\t]", [b"gr/x\xd9\xa3"]),
               ("grep", b"gr/a[^a]b-", [b"gr/a\nb-"]), ("grep", b"gr/a.b-", [b"gr/a\nb-"]), ("posix-basic", b"gr/a.b-", [b"gr/a\nb-"]), ("emacs", b"gr/a.b-", []),
               ("emacs", b"gr/x\\t", [b"gr/xt"]), ("posix-extended", b"gr/x\\t", [b"gr/xt"]), ("grep", b"gr/x\\t", [b"gr/xt"]),
+              # GNU's emacs syntax has no character classes: "[[:digit:]" is a bracket expression ("[", ":", "d", ...), then a "]"
+              ("emacs", b"gr/x[[:digit:]]", [b"gr/x:]"]), ("emacs", b"gr/x[[:punct:]", [b"gr/xt"]), ("emacs", b"gr/x[^[:digit:]]*", [b"gr/x\t", b"gr/x$", b"gr/x+", b"gr/x.", b"gr/x3", b"gr/x3]", b"gr/xx", b"gr/x~", b"gr/x\xd9\xa3"]),
+              ("posix-basic", b"gr/x[[:digit:]]]", [b"gr/x3]"]),
+              # a newline in a grep pattern separates alternatives (outside brackets); elsewhere it is a newline
+              ("grep", b"gr/aa\ngr/abb", [b"gr/aa", b"gr/abb"]), ("grep", b"gr/a[\n]b-", [b"gr/a\nb-"]), ("posix-basic", b"gr/aa\ngr/abb", []),
+              ("grep", b"gr/\\(aa\nabb\\)", [b"gr/aa", b"gr/abb"]),
               ("emacs", b"gr/x\\{2\\}", [b"gr/x{2}"]), ("posix-basic", b"gr/x\\{2\\}", [b"gr/xx"]), ("posix-extended", b"gr/x{2}", [b"gr/xx"])]
     for root, ty, pat, want in [(b"nl",) + c for c in cases] + [(b"gr",) + c for c in cases2]:
         for flag in (b"-regex", b"-iregex"):
@@ -280,7 +288,7 @@ def wrapper(ctx):
     and longer random ones"""
     import itertools
     rng = ctx.rng
-    alpha = ["\\", "[", "]", "(", ")", "^", ":", "1", "9", "0", "a", "|"]
+    alpha = ["\\", "[", "]", "(", ")", "^", ":", "1", "9", "0", "a", "\n"]
     pats = []
     for n in range(0, (5 if ctx.thorough else 4) + 1):
         for tup in itertools.product(alpha, repeat=n):
@@ -288,23 +296,23 @@ def wrapper(ctx):
     pieces = alpha + ["[:punct:]", "[:digit:]", "[:alpha:]", "[[:punct:]]", "[^[:digit:]x]", "\\1", "\\9", "\\(", "\\)", "[)]", "[]", "[^]", "\u00e9", ".", "*", "{2}", "[:punct", "[:"]
     for _ in range(20000 if ctx.thorough else 2000):
         pats.append("".join(rng.choice(pieces) for _ in range(rng.randint(1, 9))))
-    cases = [(p, e) for p in pats for e in (0, 1)]
-    il = ["rxwrap %d %s" % (e, fw.hexs(p.encode())) for p, e in cases]
-    ml = ["rxwrap %d %s" % (e, ".".join(str(ord(c)) for c in p) if p else "-") for p, e in cases]
+    cases = [(p, e) for p in pats for e in ("emacs", "posix-basic", "posix-extended", "grep")]
+    il = ["rxwrap %s %s" % (e, fw.hexs(p.encode())) for p, e in cases]
+    ml = ["rxwrap %s %s" % (e, ".".join(str(ord(c)) for c in p) if p else "-") for p, e in cases]
     impl = fw.run_lines(fw.FUV, il)
     model = fw.run_lines(fw.FUVM, ml)
     bad = []
     for (p, e), i, m in zip(cases, impl, model):
         mt = "" if m == "-" else "".join(chr(int(x)) for x in m.split("."))
         it = fw.unhex(i).decode("utf-8", "replace") if i not in ("panic", "badcase", "badutf8") else i
-        ctx.count(("wrap", p, e), any(c in p for c in "\\[)"), ["wrapper", "extended=%d" % e, "len=%s" % (len(p) if len(p) < 6 else "6+")])
+        ctx.count(("wrap", p, e), any(c in p for c in "\\[)"), ["wrapper", "regextype=%s" % e, "len=%s" % (len(p) if len(p) < 6 else "6+")])
         if it != mt:
             bad.append((p, e, it, mt))
     for p, e, it, mt in bad[:3]:
-        ctx.violation("inside_group(%r, extended=%d): implementation %r, RegexWrap model %r" % (p, e, it, mt),
-                      {"property": "C17", "kind": "wrapper", "pattern": p, "extended": e, "implementation": it, "model": mt,
+        ctx.violation("inside_group(%r, %s): implementation %r, RegexWrap model %r" % (p, e, it, mt),
+                      {"property": "C17", "kind": "wrapper", "pattern": p, "regextype": e, "implementation": it, "model": mt,
                        "explain": "the model's text is proved never to close the group the pattern is wrapped in; back-references are shifted by one; "
-                                  "[:punct:] and [:digit:] are spelled out", "total_disagreements": len(bad)})
+                                  "[:punct:] and [:digit:] are spelled out, except in emacs, which has no classes; a newline in a grep pattern is an alternation", "total_disagreements": len(bad)})
 
 
 def replay(ctx, rep):
